@@ -476,3 +476,91 @@ func sortedKeys(m map[string]bool) []string {
 }
 
 func (s *Site) String() string { return fmt.Sprintf("s%d:%s", s.ID, s.Kind) }
+
+// NodeRef names one declaration or statement node of the program together
+// with the ids of the sites it contains (transitively).
+type NodeRef struct {
+	File  *File
+	Decl  Decl
+	Stmt  Stmt // nil when the ref is the declaration itself
+	Node  *Node
+	Sites []int
+	Depth int
+}
+
+// Nodes enumerates every declaration and statement node.
+func (p *Prog) Nodes() []NodeRef {
+	var out []NodeRef
+	var stmtSites func(s Stmt) []int
+	stmtSites = func(s Stmt) []int {
+		switch s := s.(type) {
+		case *Site:
+			return []int{s.ID}
+		case *Wrap:
+			var ids []int
+			for _, pv := range s.Params {
+				ids = append(ids, pv.ID)
+			}
+			for _, c := range s.Body {
+				ids = append(ids, stmtSites(c)...)
+			}
+			return ids
+		}
+		return nil
+	}
+	var walk func(f *File, d Decl, ss []Stmt, depth int)
+	walk = func(f *File, d Decl, ss []Stmt, depth int) {
+		for _, s := range ss {
+			out = append(out, NodeRef{File: f, Decl: d, Stmt: s, Node: s.stmtNode(), Sites: stmtSites(s), Depth: depth})
+			if w, ok := s.(*Wrap); ok {
+				walk(f, d, w.Body, depth+1)
+			}
+		}
+	}
+	for _, pkg := range p.Pkgs {
+		for _, f := range pkg.Files {
+			for _, d := range f.Decls {
+				ref := NodeRef{File: f, Decl: d, Node: d.declNode()}
+				walkDecl(pkg, f, d, func(si SiteInfo) { ref.Sites = append(ref.Sites, si.Site.ID) })
+				out = append(out, ref)
+				switch d := d.(type) {
+				case *FuncDecl:
+					walk(f, d, d.Body, 1)
+					if d.RetSite != nil {
+						out = append(out, NodeRef{File: f, Decl: d, Stmt: d.RetSite, Node: &d.RetSite.Node, Sites: []int{d.RetSite.ID}, Depth: 1})
+					}
+				case *VarDecl:
+					if d.Closure != nil {
+						walk(f, d, d.Closure.Body, 1)
+					}
+				}
+			}
+		}
+	}
+	return out
+}
+
+// TagLines maps site id -> (file key "dir/name", 1-based line) by scanning the
+// rendered text.
+func (p *Prog) TagLines() map[int]struct {
+	File string
+	Line int
+} {
+	out := map[int]struct {
+		File string
+		Line int
+	}{}
+	for _, pkg := range p.Pkgs {
+		for _, f := range pkg.Files {
+			for i := range f.Lines {
+				if id := TagAt(f.Lines, i+1); id != 0 {
+					out[id] = struct {
+						File string
+						Line int
+					}{pkg.Dir + "/" + f.Name, i + 1}
+				}
+			}
+		}
+	}
+	return out
+}
